@@ -210,7 +210,7 @@ def main(tier, seed):
         samples=[dict(w0=str(c['w0']), script=[(o, None if a is None else str(a), str(x), str(y)) for o, a, x, y in c['script']],
                       results=[tuple(str(z) for z in r) for r in c['out']]) for c in cases[:2]],
         source_blobs=repo_blob_ids(['sismic/clock/clock.py']),
-        proof_info={k: info.get(k) for k in ('build_ok', 'closed', 'axioms', 'forbidden_tokens')},
+        proof_info={k: info.get(k) for k in ('build_ok', 'closed', 'axioms', 'forbidden_tokens', 'coqchk')},
     )
     write_evidence(PROP, tier, seed, t0, cov,
                    ['wall clock non-decreasing, speeds >= 0 (hypotheses of C14_monotonic)',
